@@ -7,6 +7,8 @@ import (
 )
 
 const (
+	// nLSTMActivations is the number of activation functions the operator uses.
+	nLSTMActivations = 3
 	MinLSTMInputs = 3
 	MaxLSTMInputs = 8
 )
@@ -132,6 +134,10 @@ func (l *LSTM) Apply(inputs []tensor.Tensor) ([]tensor.Tensor, error) {
 
 	if err = Ct.Reshape(Ct.Shape().Clone()[1:]...); err != nil {
 		return nil, err
+	}
+
+	if len(l.activations) < nLSTMActivations {
+		return nil, ops.ErrInvalidAttribute(ops.ActivationsAttr, l)
 	}
 
 	fActivation, err := ops.GetActivation(l.activations[0])
